@@ -328,3 +328,60 @@ pub fn write_c08t_inputs(seed: u64, count: u64, file: &PathBuf) {
     }
     std::fs::write(file, out).expect("write c08t inputs");
 }
+
+/// Inputs for the file-based 32-bit-limb stage of C01 / C02 / C05: generated natively from the property's own
+/// mixture (weighted towards the big-integer path, digit strings capped at 900 digits so that the interpreter
+/// stays fast), one per line with the expected bits computed by the exact oracle *here*, so that the
+/// interpreted run (Miri, --target i686) only has to parse and compare.
+pub fn write_l32_inputs(seed: u64, count: u64, which: &str, file: &PathBuf) {
+    use crate::gen::{mix, Limits};
+    use crate::oracle::Fmt;
+    let lim = Limits { long: 800, huge: 900 };
+    let mut out = String::new();
+    let show = |d: &[u8]| if d.is_empty() { "-".to_string() } else { String::from_utf8_lossy(d).to_string() };
+    let mut i = 0u64;
+    let mut emitted = 0u64;
+    while emitted < count && i < count * 50 {
+        i += 1;
+        let mut bytes = Vec::with_capacity(96);
+        let mut s = mix(seed ^ i.wrapping_mul(0x9e37_79b9_7f4a_7c15) ^ 0x1_32);
+        for _ in 0..12 {
+            s = mix(s);
+            bytes.extend(s.to_le_bytes());
+        }
+        let mut r = crate::fuzzglue::recipe_from_bytes(&bytes);
+        let fmt = match which {
+            "f32" => Fmt::F32,
+            "f64" => Fmt::F64,
+            _ => {
+                if i % 2 == 0 {
+                    Fmt::F64
+                } else {
+                    Fmt::F32
+                }
+            }
+        };
+        let c = match i % 6 {
+            0 if fmt == Fmt::F64 => crate::gen::g_n(&r),
+            1 => {
+                r.sel[3] = 0x4000; // deciding digit around the digit limit
+                crate::gen::g_g(fmt, &r, lim)
+            }
+            2 => crate::gen::g_b(fmt, &r, lim),
+            3 => crate::gen::g_p(fmt, &r),
+            _ => crate::gen::mixed(fmt, &r, lim),
+        };
+        if c.int.len() + c.frac.len() > 1000 {
+            continue;
+        }
+        // three inputs in four must reach the big-integer path in the default or compact configuration
+        let slow = crate::cfgs::CFGS[0].path(fmt, &c.int, &c.frac, c.exp).slow || crate::cfgs::CFGS[1].path(fmt, &c.int, &c.frac, c.exp).slow;
+        if !slow && i % 4 != 0 {
+            continue;
+        }
+        let want = crate::oracle::expected(fmt, &c.int, &c.frac, c.exp as i64);
+        out.push_str(&format!("{} {} {} {} {:#x} {}\n", fmt.name(), show(&c.int), show(&c.frac), c.exp, want, c.family.replace(' ', "_")));
+        emitted += 1;
+    }
+    std::fs::write(file, out).expect("write l32 inputs");
+}
